@@ -179,7 +179,7 @@ pub fn sparse_positions(rng: &mut Rng, n: usize, m: usize, w: usize, layout: Lay
                 let l = 1 + rng.below(40);
                 for i in 0..l {
                     if set.len() >= m { break; }
-                    if start + i < n { set.insert(start + i); }
+                    if let Some(x) = start.checked_add(i) { if x < n { set.insert(x); } }
                 }
                 attempts += 1;
             }
